@@ -177,3 +177,58 @@ def sany(module_path: str) -> bool:
                        cwd=os.path.dirname(module_path), capture_output=True, text=True)
     return p.returncode == 0 and "Semantic errors" not in p.stdout and "Fatal" not in p.stdout \
         and "Parse Error" not in p.stdout and "Could not" not in p.stdout
+
+
+def cfg_variant(cfg_path: str, out_dir: str, name: str, consts: dict | None = None,
+                add_lines: list | None = None, drop_prefixes: tuple = ()) -> str:
+    """Copy a .cfg with some `NAME = value` constants replaced / lines appended.
+    Returns the absolute path of the new file (written into out_dir)."""
+    txt = open(cfg_path).read().splitlines()
+    out = []
+    for line in txt:
+        s = line.strip()
+        if any(s.startswith(p) for p in drop_prefixes):
+            continue
+        for k, v in (consts or {}).items():
+            m = re.match(r"^(\s*(?:CONSTANTS?\s+)?)" + re.escape(k) + r"\s*=\s*\S+\s*$", line)
+            if m:
+                line = f"{m.group(1)}{k} = {v}"
+        out.append(line)
+    out += (add_lines or [])
+    path = os.path.join(out_dir, name)
+    with open(path, "w") as f:
+        f.write("\n".join(out) + "\n")
+    return path
+
+
+_PROG = re.compile(r'<<\s*"PROGRESS",\s*<<([^>]*)>>\s*>>', re.S)
+
+
+def parse_progress(stdout: str) -> list | None:
+    m = None
+    for m in _PROG.finditer(stdout):
+        pass
+    if not m:
+        return None
+    body = m.group(1).strip()
+    if not body:
+        return []
+    return [int(x) for x in re.findall(r"-?\d+", body)]
+
+
+def validate_traces(module: str, cfg: str, spec_dir: str, payload, *, timeout=1800,
+                    workers=1, dfs=False, env_name="TRACE_FILE") -> tuple:
+    """Run a *Trace spec over a batch.  Returns (TlcResult, progress vector)."""
+    tmp = tempfile.mkdtemp(prefix="vtrace_")
+    try:
+        tf = os.path.join(tmp, "traces.json")
+        with open(tf, "w") as f:
+            json.dump(payload, f)
+        r = run_tlc(module, cfg, spec_dir=spec_dir, workers=workers, timeout=timeout,
+                    env={env_name: tf}, dfs=dfs)
+        prog = parse_progress(r.stdout)
+        if prog is None:
+            raise MachineryError(f"trace validation produced no PROGRESS line:\n{r.stdout[-3000:]}")
+        return r, prog
+    finally:
+        shutil.rmtree(tmp, ignore_errors=True)
